@@ -341,6 +341,32 @@ func (e *Ev) specCall(name string, n *ast.CallExpr) (Term, bool) {
 			return Term{S: app(e.allocPred, s), Sort: sBool, T: boolT}, true
 		}
 		return Term{S: app("fresh$", s), Sort: sBool, T: boolT}, true
+	case "oldElem":
+		// oldElem(s, j): element j of slice s (header and index evaluated NOW) as it was in the
+		// old state; for invariants that relate a local index to the entry contents
+		x := e.ev(n.Args[0])
+		st, ok := x.T.Underlying().(*types.Slice)
+		if !ok || e.old == nil {
+			return e.errorf(n, "oldElem: needs a slice and an old state"), true
+		}
+		i := e.asInt(e.ev(n.Args[1]))
+		es := e.sortOf(st.Elem())
+		e2 := *e
+		e2.st = e.old
+		h := e2.elemHeap(es)
+		sel := app("select", app("select", h, app("sarr", x.S)), app("+", app("soff", x.S), i))
+		if e.qindex != nil && strings.HasPrefix(i, "q$") && !strings.Contains(i, " ") && !strings.Contains(x.S, i) && len(e.qindex[i]) < 2 {
+			dup := false
+			for _, c := range e.qindex[i] {
+				if c[1] == sel {
+					dup = true
+				}
+			}
+			if !dup {
+				e.qindex[i] = append(e.qindex[i], [2]string{app("soff", x.S), sel})
+			}
+		}
+		return Term{S: sel, Sort: es, T: st.Elem(), Signed: isSigned(st.Elem())}, true
 	case "trig":
 		// trig(x, ...): an always-true marker whose only purpose is to be the instantiation
 		// trigger of the enclosing quantifier (for bound variables that occur under no function
@@ -476,6 +502,46 @@ func (e *Ev) specFunc(b *Block, n *ast.CallExpr) Term {
 			saved[p] = nil
 		}
 		e.bound[p] = args[k]
+	}
+	if hasFlag(b, "named") {
+		// heap-independent arithmetic helper kept as a function symbol with a definitional axiom:
+		// smaller terms, and applications of it can serve as triggers
+		nm := "spec$" + strings.TrimSpace(hdr[:i])
+		var bs, vs, sorts []string
+		for k := range args {
+			if args[k].UConst != nil {
+				args[k] = e.coerce(args[k], sInt, true, nil)
+			}
+		}
+		for k := range pnames {
+			v := fmt.Sprintf("p%d", k)
+			bs = append(bs, fmt.Sprintf("(%s %s)", v, args[k].Sort))
+			vs = append(vs, v)
+			sorts = append(sorts, args[k].Sort)
+			t := args[k]
+			t.S = v
+			t.UConst = nil
+			e.bound[pnames[k]] = t
+		}
+		body := e.specExpr(defs[0].Text)
+		for _, p := range pnames {
+			if saved[p] != nil {
+				e.bound[p] = *saved[p]
+			} else {
+				delete(e.bound, p)
+			}
+		}
+		e.g().Pre.add(fmt.Sprintf("(declare-fun %s (%s) %s)", nm, strings.Join(sorts, " "), body.Sort))
+		e.g().Pre.add(fmt.Sprintf("(assert (forall (%s) (! (= %s %s) :pattern (%s))))", strings.Join(bs, " "), app(nm, vs...), body.S, app(nm, vs...)))
+		var as []string
+		for _, a := range args {
+			if a.UConst != nil {
+				a = e.coerce(a, sInt, true, nil)
+			}
+			as = append(as, a.S)
+		}
+		body.S = app(nm, as...)
+		return body
 	}
 	r := e.specExpr(defs[0].Text)
 	for _, p := range pnames {
